@@ -12,7 +12,7 @@ T = "explicit TLA+ specification checked with TLC; traces recorded from the C li
 TV = "explicit TLA+ specification checked with TLC + trace validation of the C library against it"
 META = {
     "C01": ("model_checking", "6/C01",
-            "TLC checks the packing lemmas at full size (165 unit seeds, all 13 530 pairs, every birthday and feature value: Unwords(Words(s)) = s, linearity); every encode / decode / decode_explicit call recorded from the C library for boundary and random seeds x languages x coins is judged by TLC against Phrase.tla / SeedCodec.tla, including forced Simplified/Traditional Chinese ambiguity and the longest Korean/Japanese phrases",
+            "TLC checks the packing lemmas at full size (165 unit seeds, all 13 530 pairs, every birthday and feature value: Unwords(Words(s)) = s, linearity); every encode / decode / decode_explicit call recorded from the C library for boundary and random seeds x languages x coins is judged by TLC against Phrase.tla / SeedCodec.tla, including forced Simplified/Traditional Chinese ambiguity and a ladder of Korean/Japanese phrase lengths up to the extremal 543-byte one; the trace specification also keeps the phrases the library itself issued and requires every later decode of one (same coin and language) to return that very seed",
             "real NFC/NFKD by utf8proc as injected dependency (NFC output cross-checked against golden Unicode data from Python unicodedata); golden word lists = pinned release (check C07)", TV),
     "C02": ("model_checking", "6/C02",
             "TLC enumerates the whole field: MulX bijective and GF(2)-linear on all 2048 elements, d*x^i != 0 for all 16 x 2047 cases (single substitution), d*(x^i+x^j) != 0 for all 120 x 2047 cases (swap), uniqueness of the check word; the implementation's gf_elem_mul2 (all 2048) and gf_poly_eval are compared with the specification by TLC, and substitutions, swaps, erasure recovery and altered check values go through the public API",
@@ -24,7 +24,7 @@ META = {
             "every argument of every injected PBKDF2 call (password bytes and length, salt bytes and length, iteration count, key pointer identity, key length) and the key buffer afterwards are conditions of the contract evaluated by TLC; injectivity of the salt/password in each field is a TLC lemma family (kdf); same-seed-by-any-path follows from the abstract heap",
             "the KDF itself is an injected dependency; the stub returns scheduled bytes", TV),
     "C05": ("model_checking", "6/C05",
-            "TLC: MulX(d) != 0 for all 2047 coin differences (quick) and Valid(ApplyCoin(ApplyCoin(w,a),b)) <=> a=b for all 2048 x 2048 pairs (thorough); traces: full rows and columns of coin pairs through encode / decode_explicit, judged by TLC",
+            "TLC: MulX(d) != 0 for all 2047 coin differences (quick) and Valid(ApplyCoin(ApplyCoin(w,a),b)) <=> a=b for all 2048 x 2048 pairs (thorough); traces: full rows and columns of coin pairs through encode / decode_explicit / decode, seeds whose check word is 0, 1, 1023, 1024, 2047; the issued-phrase relation of the trace specification requires every phrase the library issued for coin A to be rejected with the checksum status for every other coin",
             "linearity of the code (TLC-checked)", TV),
     "C06": ("model_checking", "6/C06",
             "TLC decides LoadStatus/StoreImage on the field-wise exhaustive neighbourhood of valid images (all values of every non-secret field, ~265 000 buffers: acceptance implies store reproduces the buffer, precedence FORMAT > CHECKSUM > UNSUPPORTED); the same buffer families plus constructed non-canonical-but-check-consistent images, multi-bit mutations and random buffers are loaded by the C library and every status and stored image judged by TLC",
@@ -36,10 +36,10 @@ META = {
             "the acceptance rule is Wordlists.Accepts; TLC judges the outcome of the library's word search for every character-prefix length x every subset of accents kept/dropped of every word (all accented words, sample/all of the others), negative tokens, and whole phrases with independent NFC/NFD variants per position through the real normaliser",
             "internal search entry point polyseed_lang_find_word observed directly and through both decoders", TV),
     "C09": ("model_checking", "6/C09",
-            "TLC proves on the specification that automatic decoding is determined by the ten explicit outcomes exactly as stated (TheoremsSplit: all strings over {a,b,space} up to a length for the splitter; 4096 token sequences over real lists for the relation and precedence); every structured string is given to polyseed_decode and to polyseed_decode_explicit for all ten languages and all eleven outcomes are judged by TLC",
+            "TLC proves on the specification that automatic decoding is determined by the ten explicit outcomes exactly as stated (TheoremsSplit: all strings over {a,b,space} up to a length for the splitter; 4096 token sequences over real lists for the relation and precedence); every structured string is given to polyseed_decode (with and without a language pointer) and to polyseed_decode_explicit for all ten languages, also under a failing allocator; every outcome is judged by TLC, and the trace specification additionally requires explicit decoding with the unique recognising language to return exactly the automatic status (agreement relation)",
             "relation checked per call against the specification for which it is a theorem", TV),
     "C10": ("model_checking", "6/C10",
-            "TLC: Supported matches the statement for all 32 x 8 (features, mask) pairs, enable/create/query lemmas; PolyseedMC explores all enabling sequences within its bound (NewSeedsAreSupported, NoReservedBit, OnlyEnableChangesMask); traces: all 8 masks (with high argument bits) x all 32 feature values x load / decode / decode_explicit with constructed vectors, create with arguments 0..15 and beyond, queries, round trips",
+            "TLC: Supported matches the statement for all 32 x 8 (features, mask) pairs, enable/create/query lemmas; PolyseedMC explores all enabling sequences within its bound (NewSeedsAreSupported, NoReservedBit, OnlyEnableChangesMask); traces: all 8 masks (with high argument bits) x all 32 feature values x load / decode / decode_explicit with constructed vectors, create with arguments 0..15 and beyond, queries, round trips, seeds kept alive while the mask changes; the reserved-feature vectors are generated by TLC from the specification (Theorems family 'vectors') as well as constructed",
             "reserved-feature vectors are constructed (the library cannot produce them)", TV + " (exhaustive over masks x features x entry points)"),
     "C11": ("model_checking", "6/C11",
             "TLC decides the quantiser on 64-bit limb arithmetic at both sides of all 1024 month boundaries, the range ends and special clocks; the library is run with the injected (and the libc) clock at those 3 089 values plus random ones and every reported birthday, also after encode/decode, store/load and crypt, is judged by TLC",
@@ -48,7 +48,7 @@ META = {
             "TLC: CryptApply is an involution preserving birthday/user features and the 150-bit bound for all 256 x 256 (secret byte, mask byte) pairs and all flag/birthday values; PolyseedMC keeps every seed canonical across crypt; traces: repeated applications with biased masks (all values of the dropped bits), equal/different passwords in NFC/NFD spelling, every KDF argument judged, seeds stored/loaded/encoded/decoded after each application",
             "utf8proc NFKD agrees with golden Unicode data on the password pool (environment assumption checked per run)", TV),
     "C13": ("model_checking", "6/C13",
-            "Polyseed.tla is the abstract model; PolyseedMC checks its invariants and action properties on all behaviours within the bound; behaviours of the model are replayed through the C library (spec -> code) and random walks over the whole API with up to six live seeds are validated event by event with the projection of ALL live seeds (code -> spec)",
+            "Polyseed.tla is the abstract model; PolyseedMC checks its invariants and action properties on all behaviours within the bound; PolyseedImpl (the implementation's step structure composed with the contract) conforms on every exit path and its dependency-call shapes are compared with the code's; behaviours of the model are replayed through the C library (spec -> code) and random walks over the whole API with up to six live seeds and the repository's own test script (in three builds) are validated event by event with the projection of ALL live seeds (code -> spec)",
             "bounded pools (spec/PolyseedMC*.cfg); walks sample beyond", TV + " + replay of TLC-generated behaviours"),
     "C14": ("exploration", "6/C14",
             "hostile phrases, passwords and buffers (length classes around the buffer size, token-count classes, invalid UTF-8, mutations, random bytes) are executed under ASan+UBSan with assertions and in the release build with guard pages and a watchdog; TLC supplies the status oracle for every call, the ledger and input-integrity conditions; a sanitizer report, signal or hang is an event no specification action accepts",
@@ -69,7 +69,7 @@ META = {
             "the same scripts run against -fsigned-char and -funsigned-char builds (and assert-enabled variants); both traces are validated by TLC against the one byte-level specification",
             "gcc -funsigned-char models the ARM/PowerPC ABI", TV + " on two compiler configurations"),
     "C20": ("model_checking", "6/C20",
-            "PolyseedThreads.tla: all interleavings of the footprint model (3 threads x 2 calls): NoRace, SerialResults, ReadOnlyPhase; code: N threads on disjoint seeds with the library's writable data segments write-protected (any store to static data faults deterministically), ThreadSanitizer build, list of writable static symbols compared with the model's three objects, and every thread's transcript validated by TLC against the sequential specification",
+            "PolyseedThreads.tla: all interleavings of the footprint model (3 threads x 2 calls): NoRace, SerialResults, ReadOnlyPhase; code: N threads on disjoint seeds with the library's writable data segments write-protected (any store to static data faults deterministically), ThreadSanitizer build, list of writable static symbols compared with the model's three objects, every thread's results compared with a serial run of the same script (serial equivalence), and every thread's transcript validated by TLC against the sequential specification",
             "race freedom on the code is the observers' verdict on the schedules run; the model covers the design", TV + "; mprotect/TSan as observers"),
 }
 
